@@ -1,0 +1,29 @@
+//go:build verif
+
+package groth16
+
+import "github.com/consensys/gnark-crypto/ecc/bw6-761/fr"
+
+// Verification hooks (build tag verif only): observe / override the setup toxic waste and the
+// prover's randomness so that key and proof elements can be compared with a model "in the exponent".
+
+// VerifHookToxicWaste, when set, is called by Setup with pointers to (tau, alpha, beta, gamma, delta)
+// right after they were sampled; it may overwrite them (the inverses are recomputed).
+var VerifHookToxicWaste func(t, alpha, beta, gamma, delta *fr.Element)
+
+// VerifHookProverRS, when set, is called by Prove with pointers to the sampled (r, s).
+var VerifHookProverRS func(r, s *fr.Element)
+
+func verifToxicWaste(tw *toxicWaste) {
+	if VerifHookToxicWaste != nil {
+		VerifHookToxicWaste(&tw.t, &tw.alpha, &tw.beta, &tw.gamma, &tw.delta)
+		tw.gammaInv.Inverse(&tw.gamma)
+		tw.deltaInv.Inverse(&tw.delta)
+	}
+}
+
+func verifProverRS(r, s *fr.Element) {
+	if VerifHookProverRS != nil {
+		VerifHookProverRS(r, s)
+	}
+}
